@@ -7,6 +7,7 @@
    `wfv` = the keys of every hash inside the value are pairwise different (the invariant of C09). *)
 From Coq Require Import ZArith NArith Bool List.
 From PcoreV Require Import Model.Base Model.Ty Model.Lattice Model.Spec Proofs.LatticeBasics Proofs.SpecProofs.
+From PcoreV Require Import Model.StrBytes Proofs.StrBytesProofs Proofs.StrBytesInst Proofs.StrBytesEncode Proofs.StrBytesMap Model.Alias Proofs.AliasProofs.
 Import ListNotations.
 Open Scope Z_scope.
 
@@ -36,3 +37,210 @@ Proof.
   repeat split; try reflexivity.
   cbn. exists [195%N; 169%N]. split; [reflexivity|]. unfold between. vm_compute. split; discriminate.
 Qed.
+
+(* ================= strings as BYTES (Model/StrBytes.v) =================
+   A Go string is any byte sequence.  `utf8_rune_count` mirrors utf8.RuneCountInString (the function
+   stringtype.go:244 calls), `steps`/`decode` mirror the decoding loop of `for range s` (each byte that does not
+   start a well-formed sequence is one U+FFFD of width 1), `instB rx lc t s` is t.IsInstance(stringValue(s)) with
+   the size test on the bytes and strings.ToLower as Enum's flag calls it (`lc` = unicode.ToLower on a code point,
+   consulted beyond ASCII only), `denB` the set written on the decoded text. *)
+
+(* the number String[lo,hi] compares is the number of code points of the decoded text: EVERY byte string *)
+Theorem C02_rune_count_is_decoded_length : forall s : str, utf8_rune_count s = zlen (decode s).
+Proof. exact count_is_decoded. Qed.
+Print Assumptions C02_rune_count_is_decoded_length.
+
+Theorem C02_string_size_counts_code_points :
+  forall (rx : str -> str -> bool) (lc : N -> N) (lo hi : Z) (s : str),
+  instB rx lc (TStringSz lo hi) s = true <-> lo <= zlen (decode s) <= hi.
+Proof. exact instB_string_size. Qed.
+Print Assumptions C02_string_size_counts_code_points.
+
+(* the decoding loop consumes every byte exactly once, 1 to 4 bytes per code point *)
+Theorem C02_decoding_covers_the_bytes :
+  forall s : str, width_sum (steps s) = length s /\ (forall st, In st (steps s) -> (1 <= snd st <= 4)%nat).
+Proof. exact (fun s => conj (widths_cover s) (width_bounds s)). Qed.
+Print Assumptions C02_decoding_covers_the_bytes.
+
+(* ... so the size is at most the byte length, with equality exactly when no code point took more than one byte;
+   on well-formed UTF-8 that is: exactly for ASCII text.  ("equal iff ASCII" is FALSE for arbitrary bytes: each
+   invalid byte counts one — Example C02_bytes_examples.) *)
+Theorem C02_string_size_at_most_bytes : forall s : str, utf8_rune_count s <= zlen s.
+Proof. exact count_le_len. Qed.
+Print Assumptions C02_string_size_at_most_bytes.
+
+Theorem C02_string_size_equals_bytes_iff :
+  forall s : str, utf8_rune_count s = zlen s <-> (forall st, In st (steps s) -> snd st = 1%nat).
+Proof. exact count_eq_len_iff. Qed.
+Print Assumptions C02_string_size_equals_bytes_iff.
+
+Theorem C02_string_size_equals_bytes_iff_ascii :
+  forall s : str, valid_utf8 s = true -> (utf8_rune_count s = zlen s <-> is_ascii s = true).
+Proof. exact valid_count_eq_len_ascii. Qed.
+Print Assumptions C02_string_size_equals_bytes_iff_ascii.
+
+(* the whole scalar string fragment on bytes (String[lo,hi], String value, Enum with/without the flag, Pattern,
+   under Variant / Optional / NotUndef; every other type through `inst`): instance <-> member of the set *)
+Theorem C02_bytes_inst_is_denotation :
+  forall (rx : str -> str -> bool) (lc : N -> N) (t : ty), wf_ty t = true ->
+  forall s : str, instB rx lc t s = true <-> denB rx lc t s.
+Proof. exact instB_is_denB. Qed.
+Print Assumptions C02_bytes_inst_is_denotation.
+
+(* on well-formed UTF-8 (under a case-insensitive Enum: ASCII text) the byte-level model and the value-level model
+   `inst` of C02_inst_is_denotation are the same function, and so are the two denotations *)
+Theorem C02_bytes_agree_with_values :
+  forall (rx : str -> str -> bool) (lc : N -> N) (t : ty) (s : str),
+  valid_utf8 s = true -> (is_ascii s = true \/ no_ci t = true) ->
+  instB rx lc t s = inst rx true t (VStr s) /\ utf8_rune_count s = rune_count s.
+Proof. exact (fun rx lc t s V A => conj (instB_agrees rx lc t s V A) (valid_count_agrees s V)). Qed.
+Print Assumptions C02_bytes_agree_with_values.
+
+Theorem C02_bytes_denotations_agree :
+  forall (rx : str -> str -> bool) (lc : N -> N) (t : ty), wf_ty t = true -> forall s : str,
+  valid_utf8 s = true -> (is_ascii s = true \/ no_ci t = true) ->
+  (denB rx lc t s <-> den rx (asg rx true) t (VStr s)).
+Proof. exact denB_agrees. Qed.
+Print Assumptions C02_bytes_denotations_agree.
+
+(* ASCII case folding on bytes (Enum's flag): same length, every byte that is not a capital A-Z stays, idempotent,
+   no code point boundary moves, the number of code points stays (for EVERY byte string), and the decoded text of
+   the folded bytes is the decoded text with its one-byte code points folded *)
+Theorem C02_folding_keeps_length_and_non_letters :
+  forall s : str, length (lower_ascii s) = length s /\
+    (forall i, nth i (lower_ascii s) 0%N = lower_ascii_byte (nth i s 0%N)) /\
+    (forall b, upper_byte b = false -> lower_ascii_byte b = b) /\
+    lower_ascii (lower_ascii s) = lower_ascii s.
+Proof. exact (fun s => conj (lower_len s) (conj (lower_nth s) (conj lower_nonletter (lower_idem s)))). Qed.
+Print Assumptions C02_folding_keeps_length_and_non_letters.
+
+Theorem C02_folding_keeps_code_points :
+  forall s : str, steps (lower_ascii s) = map lower_step (steps s) /\
+    map snd (steps (lower_ascii s)) = map snd (steps s) /\
+    utf8_rune_count (lower_ascii s) = utf8_rune_count s.
+Proof. exact (fun s => conj (steps_lower s) (conj (lower_widths s) (lower_count s))). Qed.
+Print Assumptions C02_folding_keeps_code_points.
+
+(* strings.ToLower on ASCII text never consults the Unicode tables *)
+Theorem C02_to_lower_on_ascii :
+  forall (lc : N -> N) (s : str), is_ascii s = true ->
+    to_lower_b lc s = lower_ascii s /\
+    length (to_lower_b lc s) = length s /\
+    (forall i, upper_byte (nth i s 0%N) = false -> nth i (to_lower_b lc s) 0%N = nth i s 0%N) /\
+    utf8_rune_count (to_lower_b lc s) = utf8_rune_count s /\
+    to_lower_b lc (to_lower_b lc s) = to_lower_b lc s.
+Proof. exact (fun lc s A => conj (to_lower_ascii lc s A) (to_lower_ascii_facts lc s A)). Qed.
+Print Assumptions C02_to_lower_on_ascii.
+
+Example C02_bytes_examples :
+  let rx := fun _ _ => false in let lc := lower_ascii_cp in
+  (* "é" = C3 A9: one code point *)
+  decode [195; 169]%N = [233]%N /\ instB rx lc (TStringSz 1 1) [195; 169]%N = true /\
+  (* FF FF: two invalid bytes = two code points U+FFFD; size = byte length although not ASCII *)
+  decode [255; 255]%N = [65533; 65533]%N /\ instB rx lc (TStringSz 2 2) [255; 255]%N = true /\
+  is_ascii [255; 255]%N = false /\ valid_utf8 [255; 255]%N = false /\
+  (* the non-continuation-byte count of the value-level model is wrong there: 80 80 has two code points *)
+  utf8_rune_count [128; 128]%N = 2 /\ rune_count [128; 128]%N = 0 /\
+  (* overlong E0 80 80, lone surrogate ED A0 80, above U+10FFFF F4 90 80 80, truncated F0 9F 98: one per byte *)
+  utf8_rune_count [224; 128; 128]%N = 3 /\ utf8_rune_count [237; 160; 128]%N = 3 /\
+  utf8_rune_count [244; 144; 128; 128]%N = 4 /\ utf8_rune_count [240; 159; 152]%N = 3 /\
+  (* U+1F600 = F0 9F 98 80: one code point of four bytes *)
+  steps [240; 159; 152; 128]%N = [(128512%N, 4%nat)] /\
+  (* a truncated sequence followed by ASCII: E2 82 'a' = three code points *)
+  decode [226; 130; 97]%N = [65533; 65533; 97]%N /\
+  (* folding: "AbC" FF "Z" *)
+  lower_ascii [65; 98; 67; 255; 90]%N = [97; 98; 99; 255; 122]%N /\
+  (* Enum['abc', true] against "ABC"; Variant[String[1,1], Enum['abc', true]] against FF (one code point) *)
+  instB rx lc (TEnum true [[97; 98; 99]%N]) [65; 66; 67]%N = true /\
+  instB rx lc (TVariant [TEnum true [[97; 98; 99]%N]; TStringSz 1 1]) [255]%N = true /\
+  (* beyond ASCII ToLower decodes, maps and encodes: an invalid byte comes back as EF BF BD *)
+  to_lower_b lc [65; 255]%N = [97; 239; 191; 189]%N /\
+  to_lower_b (fun c => if N.eqb c 201 then 233%N else lower_ascii_cp c) [65; 195; 137]%N = [97; 195; 169]%N.
+Proof. vm_compute. repeat split. Qed.
+
+(* ---- strings.ToLower beyond ASCII (decode, map every code point, encode), for EVERY byte string and EVERY mapping:
+        the result has the same number of code points and is well-formed UTF-8; the encoder and the decoder are inverse
+        on well-formed text / on Unicode scalar values *)
+Theorem C02_to_lower_keeps_size_and_is_well_formed :
+  forall (lc : N -> N) (s : str),
+  utf8_rune_count (to_lower_b lc s) = utf8_rune_count s /\ valid_utf8 (to_lower_b lc s) = true.
+Proof. exact (fun lc s => conj (to_lower_count lc s) (to_lower_valid lc s)). Qed.
+Print Assumptions C02_to_lower_keeps_size_and_is_well_formed.
+
+Theorem C02_encoding_round_trip :
+  (forall cs : list N, decode (encode cs) = map sanitize cs /\ valid_utf8 (encode cs) = true) /\
+  (forall s : str, valid_utf8 s = true -> encode (decode s) = s).
+Proof. exact (conj (fun cs => conj (decode_encode cs) (encode_valid cs)) encode_decode). Qed.
+Print Assumptions C02_encoding_round_trip.
+
+Theorem C02_to_lower_unchanged_without_letters :
+  forall (lc : N -> N) (s : str), valid_utf8 s = true -> (forall c, In c (decode s) -> lc c = c) ->
+  is_ascii s = false -> to_lower_b lc s = s.
+Proof. exact to_lower_fixed. Qed.
+Print Assumptions C02_to_lower_unchanged_without_letters.
+
+(* strings.Map / strings.ToLower AS WRITTEN (phase 1: scan for the first rune that changes or stands for an invalid byte,
+   nothing found: the argument itself; phase 2: unchanged prefix, then every rune mapped and written) is decode / map /
+   encode: `to_lower_go` (the loop) = `to_lower_b` (the reading the theorems above are about) *)
+Theorem C02_strings_map_is_decode_map_encode :
+  forall (lc : N -> N) (s : str),
+  go_map lc s = encode (map lc (decode s)) /\ to_lower_go lc s = to_lower_b lc s.
+Proof. exact (fun lc s => conj (go_map_is_decode_map_encode lc s) (to_lower_go_eq lc s)). Qed.
+Print Assumptions C02_strings_map_is_decode_map_encode.
+
+(* a member of an Enum (flag or not, any bytes) has the size of a listed value; an Enum whose values fit String[lo,hi]
+   has only instances that fit it (the rule of stringtype.go:215, sound on bytes although ToLower changes byte lengths) *)
+Theorem C02_enum_instances_fit_its_string_bound :
+  forall (rx : str -> str -> bool) (lc : N -> N) (ci : bool) (vs : list str) (lo hi : Z) (s : str), vs <> [] ->
+  (forall v, In v vs -> in_size lo hi (utf8_rune_count v) = true) ->
+  instB rx lc (TEnum ci vs) s = true -> instB rx lc (TStringSz lo hi) s = true.
+Proof. exact enum_fits_string_bound. Qed.
+Print Assumptions C02_enum_instances_fit_its_string_bound.
+
+Example C02_to_lower_examples :
+  (* U+0130 (C4 B0) lower-cases to 'i': two bytes become one, one code point stays one *)
+  let lc := fun c => if N.eqb c 304 then 105%N else lower_ascii_cp c in
+  to_lower_b lc [196; 176]%N = [105]%N /\ utf8_rune_count [196; 176]%N = 1 /\
+  instB (fun _ _ => false) lc (TEnum true [[105]%N]) [196; 176]%N = true /\
+  encode [97; 233; 8364; 128512; 55296; 1114112]%N = [97; 195;169; 226;130;172; 240;159;152;128; 239;191;189; 239;191;189]%N /\
+  decode (encode [55296]%N) = [65533]%N /\
+  (* the loop: "é!" has nothing to fold - the argument comes back; "éA" - prefix C3 A9 kept, then 'a' *)
+  map_scan lc (steps [195; 169; 33]%N) [195; 169; 33]%N = None /\
+  to_lower_go lc [195; 169; 65]%N = [195; 169; 97]%N /\ to_lower_go lc [195; 169; 255; 65]%N = [195; 169; 239; 191; 189; 97]%N.
+Proof. vm_compute. repeat split. Qed.
+
+(* ================= type aliases (Model/Alias.v) =================
+   `aty` = the types with  AAlias name body  in any member position (non-recursive); `instA` mirrors
+   TypeAliasType.IsInstance (delegation to the resolved type) and the IsInstance methods around it; `resolve`
+   replaces every alias by its body; denA a = den (resolve a). *)
+Theorem C02_alias_inst_is_resolved_inst :
+  forall (rx : str -> str -> bool) (a : aty) (v : value), instA rx a v = inst rx true (resolve a) v.
+Proof. exact instA_resolve. Qed.
+Print Assumptions C02_alias_inst_is_resolved_inst.
+
+Theorem C02_alias_inst_is_denotation :
+  forall (rx : str -> str -> bool) (a : aty), wf_ty (resolve a) = true ->
+  forall v, wfv v = true -> (instA rx a v = true <-> denA rx a v).
+Proof. exact instA_is_denA. Qed.
+Print Assumptions C02_alias_inst_is_denotation.
+
+Theorem C02_alias_adds_nothing :
+  forall (rx : str -> str -> bool) (n : str) (b : aty) (v : value),
+  (denA rx (AAlias n b) v <-> denA rx b v) /\ instA rx (AAlias n b) v = instA rx b v.
+Proof. exact (fun rx n b v => conj (denA_alias rx n b v) (instA_alias rx n b v)). Qed.
+Print Assumptions C02_alias_adds_nothing.
+
+Example C02_alias_examples :
+  let rx := fun _ _ => false in
+  let small := AAlias [83%N] (AT (TInteger 0 5)) in                  (* type S = Integer[0,5] *)
+  let anyA := AAlias [65%N] (AT TAny) in                             (* type A = Any *)
+  instA rx (AArray small 0 3) (VArr [VInt 1; VInt 5]) = true /\
+  instA rx (AArray small 0 3) (VArr [VInt 1; VInt 6]) = false /\
+  instA rx (AArray anyA 0 3) (VArr [VInt 1; VStr []]) = true /\
+  instA rx (ATuple [small; AT TString] true 1 4) (VArr [VInt 3; VStr []; VStr [97%N]]) = true /\
+  instA rx (AStruct [([97%N], (TStringVal [97%N], small)); ([98%N], (TOptional (TStringVal [98%N]), AAlias [84%N] small))])
+        (VHash [(VStr [97%N], VInt 1)]) = true /\
+  instA rx (AStruct [([97%N], (TStringVal [97%N], small))]) (VHash [(VStr [97%N], VInt 7)]) = false /\
+  instA rx (AVariant [AOptional small; AT TString]) VUndef = true /\
+  resolve (AHash (AT TString) (AAlias [84%N] small) 0 2) = THash TString (TInteger 0 5) 0 2.
+Proof. vm_compute. repeat split. Qed.
